@@ -26,9 +26,12 @@ RULE = ("one case = one overlapping pair: 60% polytope pairs (exact oracle), 40%
         "lattice (coincident faces), copy and same placements. mpr_penetration is called once; judged when it reports an "
         "intersection: depth >= 0 finite, |direction| in {1, 0 iff depth==0}, residual overlap of A vs B+t*u <= 2e-3 L, "
         "t >= depth* - 2e-3 L, contact position within 2e-3 L of both colliders; a clear overlap (certified depth > 2e-3 L) "
-        "must be reported as intersection. non-trivial = every judged case; distinct = distinct scene hashes")
+        "must be reported as intersection. Every 10th case: a pair that touches exactly on the line through both centres "
+        "(dyadic sizes, signed-permutation poses; both argument orders): if an intersection is reported the depth is <= 2e-3 L "
+        "and the contact position lies in both colliders. L = max(1, feature sizes, centre distance) as the property defines "
+        "it (the distance from the origin only enters a 1e-9 rounding allowance). non-trivial = every judged case; distinct = distinct scene hashes")
 ASSUMPTIONS = ["Qhull facets exact to ~1e-12 relative", "for smooth shapes a residual overlap is reported only with a common-ball certificate"]
-MIN_EVENTS = {"mpr_calls": 2500, "polytope_judged": 1200, "smooth_judged": 600}
+MIN_EVENTS = {"mpr_calls": 2500, "polytope_judged": 1200, "smooth_judged": 500, "touch_judged": 100}
 MAX_INCONCLUSIVE_FRACTION = 0.6
 
 
@@ -36,8 +39,98 @@ def cases(tier):
     return 4000 if tier == "quick" else 100000
 
 
+def _dy(rng, lo=2, hi=17):
+    return float(rng.integers(lo, hi)) / 8.0
+
+
+def _touch_centreline(rng):
+    """two shapes that touch in exactly one point (or along a face) on the line through their centres, with exactly
+    representable numbers: signed-permutation poses, sizes in eighths, centres on a dyadic lattice. This is the
+    placement in which MPR's portal discovery finds the origin on its first support point (ORIGIN_ON_V1)."""
+    from .. import gen
+    k = int(rng.integers(3)); sg = float(rng.choice([-1.0, 1.0]))
+    u = np.zeros(3); u[k] = sg
+
+    def shape(c):
+        kind = str(rng.choice(["sphere", "capsule", "ellipsoid", "box", "cylinder"], p=[.35, .2, .2, .15, .1]))
+        T = O.pose(gen.rand_rot(rng, "perm"), c)
+        if kind == "sphere":
+            return {"kind": kind, "c": np.array(c, float), "r": _dy(rng)}
+        if kind == "capsule":
+            return {"kind": kind, "T": T, "r": _dy(rng), "h": _dy(rng)}
+        if kind == "ellipsoid":
+            return {"kind": kind, "T": T, "radii": np.array([_dy(rng), _dy(rng), _dy(rng)])}
+        if kind == "box":
+            return {"kind": kind, "T": T, "size": np.array([_dy(rng), _dy(rng), _dy(rng)]) * 2}
+        return {"kind": kind, "T": T, "r": _dy(rng), "l": _dy(rng) * 2}
+    cA = rng.integers(-16, 17, size=3).astype(float) / 4.0
+    if rng.random() < 0.3:
+        cA = cA + rng.integers(-3, 4, size=3).astype(float) * 64.0
+    sA = shape(cA)
+    sB = shape(np.zeros(3))
+    oA = O.oracle(sA); oB = O.oracle(sB)
+    hA = oA.h(u) - float(oA.center() @ u)
+    hB = oB.h(-u) + float(oB.center() @ u)
+    sB = O.translated(sB, cA + (hA + hB) * u)
+    touch = cA + hA * u
+    return sA, sB, touch
+
+
+def _run_touch(rng, idx):
+    from distance3d import mpr
+    sA, sB, touch = _touch_centreline(rng)
+    oA, oB, Lfull = pairs.scene(sA, sB)
+    L = max(1.0, oA.scale(), oB.scale(), float(np.linalg.norm(oA.center() - oB.center())))
+    names = (O.name(sA), O.name(sB))
+    ev = {"mpr_calls": 0, "polytope_judged": 0, "smooth_judged": 0, "no_intersection_reported": 0, "touch_judged": 0}
+    viol = []; worst = {}
+    key0 = {"pair": "%s|%s" % names, "polytope": False, "cls": "touch-centreline"}
+    rec = {"cls": "%s|%s|touch-centreline" % names, "nontrivial": True,
+           "sig": repr(pairs.describe(sA, sB, "touch-centreline", {"dist": 0.0, "depth": 0.0})),
+           "sample": dict(pairs.describe(sA, sB, "touch-centreline", {"dist": 0.0, "depth": 0.0}), touching_point=touch.tolist())}
+
+    def bad(kind, err, msg):
+        viol.append({"key": dict(key0, kind=kind), "err": None if err is None else float(err),
+                     "msg": "mpr_penetration(%s,%s) [touch-centreline]: %s" % (names[0], names[1], msg)})
+    # the oracles must agree that the constructed point is shared (self-check of the construction)
+    if max(oA.dist(touch), oB.dist(touch)) > 1e-12 * Lfull:
+        rec.update(events=ev, viol=viol, inconcl=["touching point not on both oracles"])
+        return rec
+    for order, (X, Y) in (("AB", pairs.build_pair(sA, sB)), ("BA", pairs.build_pair(sB, sA))):
+        try:
+            inter, depth, pdir, pos = mpr.mpr_penetration(X, Y)
+        except Exception as e:  # noqa: BLE001
+            bad("exception", None, "raised %s: %s" % (type(e).__name__, str(e)[:200]))
+            viol[-1]["key"]["exc"] = type(e).__name__
+            continue
+        ev["mpr_calls"] += 1
+        if not inter:
+            ev["no_intersection_reported"] += 1      # touching is the decision boundary: both answers are allowed
+            continue
+        if not monitors.finite(depth, pdir, pos) or np.shape(pdir) != (3,) or np.shape(pos) != (3,):
+            key0["touching_depth"] = bool(abs(float(depth)) <= 1e-9 * L) if monitors.finite(depth) else False
+            bad("non-finite", None, "returned depth=%r direction=%r position=%r" % (depth, pdir, pos))
+            key0.pop("touching_depth", None)
+            continue
+        ev["touch_judged"] += 1
+        depth = float(depth); pos = np.asarray(pos, float); nd = float(np.linalg.norm(pdir))
+        if depth < 0 or depth > TOL * L:
+            bad("depth-of-touching-pair", abs(depth) / L, "depth %.6g for a pair that only touches (%s)" % (depth, order))
+        if not (abs(nd - 1.0) <= 1e-9 or (nd == 0.0 and depth <= 1e-9 * L)):
+            bad("direction-not-unit", abs(nd - 1.0), "|direction| = %.12g with depth %.6g" % (nd, depth))
+        pe = max(0.0, max(oA.dist(pos), oB.dist(pos)) - 1e-9 * Lfull) / L
+        worst["contact position outside /L (touching)"] = max(worst.get("contact position outside /L (touching)", 0.0), pe)
+        if pe > TOL:
+            bad("position-not-shared", pe, "contact position %s is %.3g*L outside %s (%s; the shapes touch at %s)" % (
+                pos.tolist(), pe, "A" if oA.dist(pos) >= oB.dist(pos) else "B", order, touch.tolist()))
+    rec.update(events=ev, viol=viol, worst=worst)
+    return rec
+
+
 def run_case(rng, idx, tier):
     from distance3d import mpr
+    if idx % 10 == 9:
+        return _run_touch(rng, idx)
     smooth_case = (idx % 10) >= 6
     if smooth_case:
         kA = O.KINDS[idx % 8]; kB = str(rng.choice(O.KINDS)); margin_p = 0.15
@@ -49,7 +142,12 @@ def run_case(rng, idx, tier):
         return {"cls": "%s|%s|not-overlapping" % (kA, kB), "nontrivial": False, "events": ev, "viol": [],
                 "inconcl": ["generated scene does not overlap"]}
     sA, sB, cls, info = sc
-    oA, oB, L = pairs.scene(sA, sB)
+    oA, oB, Lfull = pairs.scene(sA, sB)
+    # L exactly as the property defines it (feature sizes and the distance between the centres, floor 1): the distance
+    # of the scene from the world origin does NOT enlarge the tolerance here; it only enters a rounding allowance of
+    # 1e-9 * coordinate magnitude, so an error that grows with the distance from the origin is still seen
+    L = max(1.0, oA.scale(), oB.scale(), float(np.linalg.norm(oA.center() - oB.center())))
+    slack = 1e-9 * Lfull
     A, B = pairs.build_pair(sA, sB)
     names = (O.name(sA), O.name(sB))
     viol = []; worst = {}
@@ -92,7 +190,7 @@ def run_case(rng, idx, tier):
         bad("direction-not-unit", abs(nd - 1.0), "|direction| = %.12g with depth %.6g" % (nd, depth))
     t = depth * pdir
     # contact position in both colliders
-    pe = max(oA.dist(pos), oB.dist(pos)) / L
+    pe = max(0.0, max(oA.dist(pos), oB.dist(pos)) - slack) / L
     worst["contact position outside /L"] = pe
     if pe > TOL:
         mn = min(min(O.extents(sA)), min(O.extents(sB)))
@@ -101,8 +199,8 @@ def run_case(rng, idx, tier):
     key0.pop("depth_exceeds_smallest_extent", None)
     if polytope:
         ev["polytope_judged"] += 1
-        resid = refsolve.residual_depth(info["eq"], t) / L
-        short = (info["exact"] - depth) / L
+        resid = max(0.0, refsolve.residual_depth(info["eq"], t) - slack) / L
+        short = (info["exact"] - depth - slack) / L
         worst["polytope residual overlap /L"] = resid
         worst["polytope depth*-t /L"] = short
         if resid > TOL:
@@ -111,7 +209,7 @@ def run_case(rng, idx, tier):
             bad("depth-too-small", short, "t=%.6g is below the penetration depth %.6g by %.3g*L" % (depth, info["exact"], short))
     else:
         ev["smooth_judged"] += 1
-        short = (info["lb"] - depth) / L
+        short = (info["lb"] - depth - slack) / L
         worst["smooth certified depth - t /L"] = short
         if short > TOL:
             bad("depth-too-small", short, "t=%.6g is below a certified lower bound of the depth %.6g" % (depth, info["lb"]))
@@ -121,7 +219,7 @@ def run_case(rng, idx, tier):
         rr = refsolve.ref_distance(oA, oB2, L, eps_rel=1e-6, max_iter=100)
         if rr["lb"] <= 0:
             p0 = 0.5 * (rr["a"] + rr["b"])
-            lbres = penscene.common_ball_lower_bound(oA, oB2, p0) / L
+            lbres = max(0.0, penscene.common_ball_lower_bound(oA, oB2, p0) - slack) / L
             worst["smooth certified residual overlap /L"] = lbres
             if lbres > TOL:
                 bad("residual-overlap", lbres, "after translating B by t*u a ball of radius %.3g*L still fits into both shapes" % (lbres / 2))
